@@ -702,6 +702,14 @@ func c11Scenarios(tier string) []*Scenario {
 			out = append(out, c11Sizes(fs, big, 3))
 		}
 	}
+	// records around the 16 MiB mark, above which the header framings read the payload incrementally
+	huge := []int{1 << 24, 1<<24 + 1, 5}
+	for _, n := range []string{`Header("")`, "LSP", `StrictHeader("a/b")`} {
+		if q && n != "LSP" {
+			continue
+		}
+		out = append(out, c11Sizes(framingByName(n), huge, 2))
+	}
 	for _, fs := range framings() {
 		out = append(out, c11Bytes(fs))
 	}
@@ -1254,7 +1262,21 @@ func c12LongLines(fs framingSpec, quick bool) *Scenario {
 				cl := c12Judge(r, fs, stream, nil, true, false, false)
 				r.Case(fs.Name+"/longbody/"+cl, true)
 			}
-			_ = quick
+			// bodies around 16 MiB (above which the payload is read incrementally): with the right, a wrong
+			// and no Content-Type, complete and cut off by the end of the stream
+			for _, size := range []int{1<<24 + 1, 1 << 24} {
+				body := fill(size, true)
+				for _, typ := range []string{ct, "Content-Type: c/d\r\n", ""} {
+					whole := typ + fmt.Sprintf("Content-Length: %d\r\n\r\n", size) + body
+					for _, stream := range []string{whole + ct + "Content-Length: 1\r\n\r\nz", whole[:len(whole)-3], whole[:len(whole)/2]} {
+						cl := c12Judge(r, fs, []byte(stream), nil, true, false, false)
+						r.Case(fs.Name+"/hugebody/"+cl, true)
+					}
+				}
+				if quick {
+					break
+				}
+			}
 			r.Sample(map[string]any{"framing": fs.Name, "stream": "X-Pad: a...a (line of 4097 bytes)\r\nContent-Length: 5\r\n\r\nhello"})
 		},
 	}
